@@ -6,6 +6,49 @@ import RsMatterVerif.Props.C19
 namespace C01
 open Cert Case
 
+/-- the successful branch of `try_handle_sigma1_resume` written out on its own … -/
+def respResumeSucc (fabrics : List Fabric) (cache : List ResRec) (m : Msg) (newRid sid : Term) :
+    Option RespResumeCtx :=
+  match m with
+  | .sigma1 iRnd iSid _ _ (some (rid, mic1)) =>
+    match cache.find? (fun r => r.rid == rid) with
+    | .none => .none
+    | some r =>
+      if mic1 ≠ Term.mic (resumeKey r.secret iRnd r.rid infoS1RK) nonceR1 then .none
+      else
+        match fabrics.find? (fun f => f.idx == r.fabIdx) with
+        | .none => .none
+        | some f =>
+          let mic2 := Term.mic (resumeKey r.secret iRnd newRid infoS2RK) nonceR2
+          let keys := resumeSessionKeys r.secret iRnd r.rid
+          some { record := r,
+                 session := { fabIdx := r.fabIdx, localNode := f.nodeId, peerNode := r.peerNode,
+                              cats := r.cats, i2r := .part 0 keys, r2i := .part 1 keys,
+                              localSid := sid, peerSid := iSid, sharedSecret := r.secret },
+                 newRid := newRid, s2r := .sigma2Resume newRid mic2 sid }
+  | _ => .none
+
+/-- … is what the model's `respResume` (projection of the three-outcome `respResumeStep`) computes -/
+theorem respResume_eq (fabrics : List Fabric) (cache : List ResRec) (m : Msg) (newRid sid : Term) :
+    respResume fabrics cache m newRid sid = respResumeSucc fabrics cache m newRid sid := by
+  unfold respResume respResumeStep respResumeSucc
+  cases m with
+  | sigma1 r s d e res =>
+    cases res with
+    | none => rfl
+    | some p =>
+      obtain ⟨rid, mic1⟩ := p
+      simp only
+      cases cache.find? (fun r => r.rid == rid) with
+      | none => rfl
+      | some rec =>
+        simp only
+        by_cases hm : mic1 = Term.mic (resumeKey rec.secret r rec.rid infoS1RK) nonceR1
+        · simp only [hm, ne_eq, not_true_eq_false, ↓reduceIte]
+          cases fabrics.find? (fun f => f.idx == rec.fabIdx) <;> rfl
+        · simp only [hm, ne_eq, not_false_eq_true, ↓reduceIte]
+  | _ => rfl
+
 theorem responder_session_implies_auth (t : Time) (ctx : RespCtx) (m : Msg) (s : Session) (r : ResRec)
     (h : respSigma3 t ctx m = some (s, r)) :
     ∃ noc icac sig,
@@ -98,7 +141,8 @@ theorem responder_resume_implies_mic (fabrics : List Fabric) (cache : List ResRe
       s.i2r = .part 0 (resumeSessionKeys rec.secret iRnd rec.rid) ∧
       s.r2i = .part 1 (resumeSessionKeys rec.secret iRnd rec.rid) ∧
       r' = { rec with rid := newRid } := by
-  unfold respResume at h1
+  rw [respResume_eq] at h1
+  unfold respResumeSucc at h1
   split at h1
   · rename_i iRnd iSid dest iEph rid mic1
     split at h1
@@ -372,7 +416,8 @@ theorem respResume_some (fabrics : List Fabric) (cache : List ResRec) (m : Msg) 
       ctx.s2r = .sigma2Resume newRid (Term.mic (resumeKey rec.secret iRnd newRid infoS2RK) nonceR2) sid ∧
       ctx.session.i2r = .part 0 (resumeSessionKeys rec.secret iRnd rec.rid) ∧
       ctx.session.r2i = .part 1 (resumeSessionKeys rec.secret iRnd rec.rid) := by
-  unfold respResume at h
+  rw [respResume_eq] at h
+  unfold respResumeSucc at h
   split at h
   · rename_i iRnd iSid dest iEph rid mic1
     split at h
@@ -391,6 +436,44 @@ theorem respResume_some (fabrics : List Fabric) (cache : List ResRec) (m : Msg) 
           refine ⟨rec, List.mem_of_find?_eq_some hrec, iRnd, iSid, dest, iEph, ?_, rfl, rfl, rfl, rfl, rfl⟩
           rw [hrid, hmic, hrid]
   · cases h
+
+theorem respResumeStep_sent_iff (fabrics : List Fabric) (cache : List ResRec) (m : Msg) (newRid sid : Term)
+    (cx : RespResumeCtx) :
+    respResumeStep fabrics cache m newRid sid = .sent cx ↔ respResume fabrics cache m newRid sid = some cx := by
+  unfold respResume
+  cases respResumeStep fabrics cache m newRid sid <;> simp
+
+/-- whenever `try_handle_sigma1_resume` does not fall through, it has found the record with the
+received id and verified `Resume1MIC` under that record's secret; what happens then depends only on
+whether the record's fabric index is (still) in the table -/
+theorem respResumeStep_accepts (fabrics : List Fabric) (cache : List ResRec) (m : Msg) (newRid sid : Term)
+    (h : respResumeStep fabrics cache m newRid sid ≠ .fallThrough) :
+    ∃ rec iRnd iSid dest iEph, cache.find? (fun r => r.rid == rec.rid) = some rec ∧
+      m = .sigma1 iRnd iSid dest iEph
+        (some (rec.rid, Term.mic (resumeKey rec.secret iRnd rec.rid infoS1RK) nonceR1)) ∧
+      ((∃ fb cx, fabrics.find? (fun f => f.idx == rec.fabIdx) = some fb ∧
+          respResumeStep fabrics cache m newRid sid = .sent cx) ∨
+       (fabrics.find? (fun f => f.idx == rec.fabIdx) = none ∧
+          respResumeStep fabrics cache m newRid sid =
+            .aborted (.sigma2Resume newRid (Term.mic (resumeKey rec.secret iRnd newRid infoS2RK) nonceR2) sid))) := by
+  unfold respResumeStep at h ⊢
+  split at h
+  · rename_i iRnd iSid dest iEph rid mic1
+    split at h
+    · exact absurd rfl h
+    · rename_i rec hrec
+      split at h
+      · exact absurd rfl h
+      · rename_i hmic
+        simp only [ne_eq, Decidable.not_not] at hmic
+        have hrid : rec.rid = rid := by
+          have := List.find?_some hrec; simpa using this
+        refine ⟨rec, iRnd, iSid, dest, iEph, by rw [hrid]; exact hrec, by rw [hrid, hmic, hrid], ?_⟩
+        simp only [hmic, ne_eq, not_true_eq_false, ↓reduceIte]
+        cases hf : fabrics.find? (fun f => f.idx == rec.fabIdx) with
+        | none => right; exact ⟨rfl, rfl⟩
+        | some fb => left; exact ⟨fb, _, rfl, rfl⟩
+  · exact absurd rfl h
 
 /-- **resumption, keys_agree**: the responder resumes on the initiator's own Sigma1 and the
 initiator accepts the responder's own `Sigma2_Resume` ⇒ same directional keys and the same
